@@ -1,0 +1,5 @@
+//go:build !verif
+
+package sugardb
+
+func (server *SugarDB) verifClusterNoSockets() bool { return false }
